@@ -113,10 +113,11 @@ def comment_helpers(prog):
         if b["k"] not in ("fn", "assoc_fn") or "/tests" in c.file_of(b["sp"]) or not b["p"].startswith("lsp4spl::features::formatting"):
             continue
         ins, out = _sig(c, b)
-        if not ins or out != "std::string::String" or "std::string::String" not in ins or not any("[spl_frontend::tokens::Token]" in i for i in ins):
+        # (the text comes in as String or as &str)
+        if not ins or out != "std::string::String" or not ({"std::string::String", "&str"} & set(ins)) or not any("[spl_frontend::tokens::Token]" in i for i in ins):
             continue
         pats = []
-        for n in hir.nodes_deep(prog, b["body"], 1, crate=c):
+        for n in hir.nodes_deep(prog, b["body"], 1, crate=c, values=True):
             if n.get("k") == "LetExpr":
                 pats.append(n["pat"])
             elif n.get("k") == "Match":
@@ -125,7 +126,7 @@ def comment_helpers(prog):
             continue
         mode = None
         for i, t in enumerate(ins):
-            if t != "std::string::String" and "Token]" not in t and "FormattingOptions" not in t:
+            if t not in ("std::string::String", "&str") and "Token]" not in t and "FormattingOptions" not in t:
                 mode = i
         res[b["p"]] = {"body": b, "mode": mode}
     _cache[key] = res
